@@ -3,11 +3,13 @@
 mod util;
 mod c13;
 mod c14;
+mod c20;
 
 fn main() {
     vcore::main_for(|id| match id {
         "C13" => Some(c13::check()),
         "C14" => Some(c14::check()),
+        "C20" => Some(c20::check()),
         _ => None,
     })
 }
